@@ -17,9 +17,11 @@ ns1 == <<110, 115, 49>>   Ns1 == <<78, 115, 49>>   ns2 == <<110, 115, 50>>
 Mail == <<77, 97, 105, 108>>
 Long63 == [i \in 1..63 |-> 97 + (i % 3)]
 
+\* an asterisk label that is not the leftmost one is an ordinary label (RFC
+\* 4034 3.1.3 discounts only a leftmost "*"): a.*.ex has Labels = 3, *.*.ex 2
 Owners ==
-  {<<ex>>, <<a, ex>>, <<Star, ex>>, <<Star, a, ex>>, <<A, eX>>}
-  \cup (IF Thorough THEN {<<>>, <<Star>>, <<Long63, B, ex>>, <<Star, Star, ex>>} ELSE {})
+  {<<ex>>, <<a, ex>>, <<Star, ex>>, <<Star, a, ex>>, <<A, eX>>, <<a, Star, ex>>, <<Star, Star, ex>>}
+  \cup (IF Thorough THEN {<<>>, <<Star>>, <<Long63, B, ex>>, <<a, Star, b, Star, ex>>} ELSE {})
 
 Pub(n, m) == [i \in 1..n |-> (i * m + 3) % 256]
 Keys ==
